@@ -9,6 +9,7 @@ CHUNK_LINES = 100000
 INVS = "TypeOK InvDeliveries InvPure InvPrefixLaw InvFilterLaw InvRouterLaw InvFanoutLaw InvCompose InvBuilder InvHandleTargets InvUpdateOnce"
 # code points: a A b B . e-acute E-acute
 A, UA, B, UB, DOT, EAC, UEAC = 97, 65, 98, 66, 46, 233, 201
+C = 99  # 'c' = 0x63: same high nibble as 'a' 0x61 / 'b' 0x62 (radix_trie branches on nibbles); '.' 0x2e and 'A' 0x41 differ
 
 
 def _set(xs):
@@ -51,6 +52,7 @@ def mc_scopes(thorough):
                          MaxName=3, KindSet=["c", "g"], MaxUpdates=0), ("DoUpdate",)),
         ("fanout", dict(Mode="fanout", NameAlpha=[A, B], MaxName=2, MaxCalls=2), ()),
         ("stack", dict(Mode="stack", MaxDepth=3, NameAlpha=[A, UB, DOT], MaxName=2, PerOp="alt"), ()),
+        ("sibling", dict(Mode="sibling", Alpha=[A, B, DOT, UA], NameAlpha=[A, B, C], MaxName=3, MaxUpdates=0), ("DoUpdate",)),
         # every history of <= 5 calls on one FilterLayer / PrefixLayer value (new, add_pattern, case_insensitive(b),
         # use_dfa(b), layer() onto a fresh probe or onto an earlier product), then every name/case variant through all products
         ("builder", dict(Mode="builder", MaxHist=5, AllowOnto=True, DfaSet=["TRUE", "FALSE"], NameAlpha=[A, UA], MaxName=2,
@@ -99,6 +101,9 @@ def export_scopes(thorough):
                            MaxName=3, KindSet=["g", "h"], PerOp="alt")),
         ("x_fanout", dict(Mode="fanout", NameAlpha=[A, B], MaxName=2, PerOp="both")),
         ("x_stack", dict(Mode="stack", MaxDepth=3, NameAlpha=[A, UB, DOT], MaxName=2, KindSet=["c", "g"], PerOp="alt")),
+        # route tables {P, P+x, P+y} (value-less internal trie node between siblings), every mask, P first / last, all names <= 3
+        # over a b c: deterministic coverage of "closest ancestor ROUTE, not closest trie node" (seeded raw_ancestor_lookup)
+        ("x_sibling", dict(Mode="sibling", Alpha=[A, B, DOT, UA], NameAlpha=[A, B, C], MaxName=3, PerOp="alt")),
         # every builder history of <= 5 calls, executed on real FilterLayer / PrefixLayer values
         ("x_builder", dict(Mode="builder", MaxHist=5, DfaSet=["FALSE"], NameAlpha=[A, UA], MaxName=2, KindSet=["c"],
                            PerOp="alt")),
